@@ -359,6 +359,73 @@ fn check() {
         }
     }
 
+    // ---- random, request streams in which only every k-th accepted connection reaches the balancer (the others are
+    //      denied or routed elsewhere), and random balancers nested in random balancers: still every member / every
+    //      leaf with non-zero frequency (sampling, 3000 draws per cell)
+    for stride in 2..=4usize {
+        for n in [2usize, 3, 4, 6, 8] {
+            let log: Log = Default::default();
+            let mut cs = members(n, &log);
+            let mut b = lb_from_yaml(&lb_yaml(n, "algo: random")).expect("random lb");
+            block_on(b.init()).expect("init");
+            let lb: Arc<dyn Connector> = Arc::from(b);
+            cs.push(lb.clone());
+            let state = make_state(cs, 0);
+            let r = req("l", "127.0.0.1:1", TargetAddress::DomainPort("t".into(), 80));
+            let mut counts = vec![0usize; n];
+            for _ in 0..3000 {
+                random_draws += 1;
+                // connections that never reach the balancer
+                for _ in 1..stride {
+                    let _ = block_on(make_request(&state, &r, b"", Default::default()));
+                }
+                if let Ok(Ok((used, _))) = catch(|| block_on(select(&lb, &state, &log, &r))) {
+                    if let Some(j) = used.strip_prefix('m').and_then(|x| x.parse::<usize>().ok()).filter(|j| *j < n) {
+                        counts[j] += 1;
+                    }
+                }
+            }
+            outcomes.add(&("random-stride", stride, n, counts.iter().filter(|&&c| c == 0).count()));
+            if counts.iter().any(|&c| c == 0) {
+                chk.violation("loadbalance.random", "member-never-selected:request-stream", format!("n={n}, every {stride}. accepted connection is balanced: counts {:?} in 3000 draws", counts), json!({"members": n, "stride": stride}));
+            }
+        }
+    }
+    for (fan, leaves_per) in [(2usize, 2usize), (2, 3), (3, 2), (2, 4)] {
+        let log: Log = Default::default();
+        let nleaves = fan * leaves_per;
+        let mut cs = members(nleaves, &log);
+        let mut inner_names = vec![];
+        for i in 0..fan {
+            let ms: Vec<String> = (0..leaves_per).map(|j| format!("m{}", i * leaves_per + j)).collect();
+            let yaml = format!("name: in{i}\ntype: loadbalance\nconnectors: [{}]\nalgo: random", ms.join(", "));
+            let mut b = lb_from_yaml(&yaml).expect("inner lb");
+            block_on(b.init()).expect("init");
+            cs.push(Arc::from(b));
+            inner_names.push(format!("in{i}"));
+        }
+        let yaml = format!("name: outer\ntype: loadbalance\nconnectors: [{}]\nalgo: random", inner_names.join(", "));
+        let mut b = lb_from_yaml(&yaml).expect("outer lb");
+        block_on(b.init()).expect("init");
+        let outer: Arc<dyn Connector> = Arc::from(b);
+        cs.push(outer.clone());
+        let state = make_state(cs, 0);
+        let r = req("l", "127.0.0.1:1", TargetAddress::DomainPort("t".into(), 80));
+        let mut counts = vec![0usize; nleaves];
+        for _ in 0..3000 {
+            random_draws += 1;
+            if let Ok(Ok((used, _))) = catch(|| block_on(select(&outer, &state, &log, &r))) {
+                if let Some(j) = used.strip_prefix('m').and_then(|x| x.parse::<usize>().ok()).filter(|j| *j < nleaves) {
+                    counts[j] += 1;
+                }
+            }
+        }
+        outcomes.add(&("random-nested", fan, leaves_per, counts.iter().filter(|&&c| c == 0).count()));
+        if counts.iter().any(|&c| c == 0) {
+            chk.violation("loadbalance.random", "member-never-selected:nested", format!("random over {fan} random balancers of {leaves_per} members each: counts {:?} in 3000 draws", counts), json!({"fan": fan, "leaves_per": leaves_per}));
+        }
+    }
+
     // ---- concurrent round robin: results of the loom model (written by the loomlb build that bin/check runs first)
     let loom_file = format!("{}/target/c17-loom.json", VERIF_DIR);
     let loom: Option<serde_json::Value> = std::fs::read_to_string(&loom_file).ok().and_then(|s| serde_json::from_str(&s).ok());
